@@ -254,8 +254,12 @@ def execute(plan, ctx):
         if math.sqrt(sum(x * x for x in p)) > cfg["r_edges"][-1]:
             ctx.fault("outside_radius")
 
+    # one caller-owned float64 array: its rows / slices are handed to several entry paths and replicas
+    P_all = np.asarray(pts, dtype=np.float64).reshape(len(pts), d)
+    P_ref = P_all.copy()
+
     def tr(points):
-        return K.transform(np.asarray(points, dtype=float))
+        return K.transform(np.array(points, dtype=float))
 
     def w_of(idx):
         return None if weights is None else [weights[i] for i in idx]
@@ -310,7 +314,8 @@ def execute(plan, ctx):
                 continue
             P = [pts[i] for i in idx]
             if path == "facade":
-                ok, h = attempt(facade, cfg, P, w_of(idx), False)
+                ok, h = attempt(facade, cfg, P_all[idx[0]: idx[0] + len(idx)] if idx == list(range(idx[0], idx[0] + len(idx))) else P,
+                                w_of(idx), False)
             else:
                 ok_t, T = attempt(tr, P)
                 if not ok_t:
@@ -343,6 +348,7 @@ def execute(plan, ctx):
             if i >= len(pts):
                 continue
             p = pts[i]
+            p_arg = P_all[i] if (i + r_id) % 2 else p  # a row view of the caller's array, or a plain list
             w = None if weights is None else weights[i]
             ok_t, t = attempt(tr, p)
             if not ok_t:
@@ -350,7 +356,7 @@ def execute(plan, ctx):
                 continue
             check_transform(ctx, name, p, t)
             pre = snap(h)
-            ok1, ix_c = attempt(h.find_bin, p)
+            ok1, ix_c = attempt(h.find_bin, p_arg)
             tt = float(np.asarray(t).reshape(-1)[0]) if h.ndim == 1 else np.asarray(t, dtype=float)
             ok2, ix_t = attempt(h.find_bin, tt, transformed=True)
             if snap_diff(pre, snap(h)):
@@ -369,7 +375,7 @@ def execute(plan, ctx):
                 ok, ret = attempt(h.fill, tt, transformed=True) if w is None else attempt(h.fill, tt, w, transformed=True)
                 ctx.fault("transformed_path")
             else:
-                ok, ret = attempt(h.fill, p) if w is None else attempt(h.fill, p, w)
+                ok, ret = attempt(h.fill, p_arg) if w is None else attempt(h.fill, p_arg, w)
             ctx.ev(r_id, f"fill:{path}", i, repr(ret) if ok else exc_tag(ret))
             ctx.abstract("fill", path, name, ok)
             if not ok:
@@ -385,7 +391,10 @@ def execute(plan, ctx):
             idx = [i for i in op["idx"] if i < len(pts)]
             if not idx:
                 continue
-            P = np.asarray([pts[i] for i in idx], dtype=float).reshape(len(idx), d)
+            if idx == list(range(idx[0], idx[0] + len(idx))):
+                P = P_all[idx[0]: idx[0] + len(idx)]  # a slice (view) of the caller's array
+            else:
+                P = np.asarray([pts[i] for i in idx], dtype=float).reshape(len(idx), d)
             kw = {} if weights is None else {"weights": np.asarray(w_of(idx), dtype=float)}
             if path in ("fill_n_t", "facade_t"):
                 ok_t, T = attempt(tr, P)
@@ -459,6 +468,10 @@ def execute(plan, ctx):
             if snap_diff(pre, snap(h), ignore=("dtype",)):
                 ctx.violation("C15/wrong-dimension-refused", f"C15/wrong-dimension-changed/{name}/{how}",
                               f"refused {bad_d}-dimensional input changed the histogram: {snap_diff(pre, snap(h))}")
+    if not np.array_equal(P_all, P_ref, equal_nan=True):
+        ctx.violation("C15/callers-data-untouched", f"C15/input-array-modified/{name}",
+                      f"{K.__name__}: entering points changed the caller's own coordinate array: "
+                      f"{first_diff(P_ref, P_all)}")
     if len(used_paths) >= 2:
         ctx.nontrivial += 1
 
